@@ -14,7 +14,7 @@ theorem Cost.openSock (tcp : Bool) (port : Nat) : Cost 0 0 (openSock tcp port) :
   split <;> exact ⟨_, rfl, by simp [nSends, nRecvOk, isSend, isRecvOk]⟩
 
 /-- from the initial state the bound is about the whole log -/
-theorem Cost.total {q : Q α} {ko ke : Int} (h : Cost ko ke q) (k : Nat) (hko : ko ≤ k) (hke : ke ≤ k)
+theorem Cost.totalLe {q : Q α} {ko ke : Int} (h : Cost ko ke q) (k : Nat) (hko : ko ≤ k) (hke : ke ≤ k)
     (script : List ConnScript) (faults : List Bool) :
     nSends (q (Net.init script faults)).2.log ≤ k + nRecvOk (q (Net.init script faults)).2.log := by
   obtain ⟨added, hl, hc⟩ := h (Net.init script faults)
